@@ -1283,8 +1283,18 @@ pub fn gen(rng: &mut Rng, bias: Bias) -> Script {
 /// waits for buffer space) and abandoned while the dispatch is never polled, so `n` stale ids pile up
 /// in the cancellation queue; then the transmitted call is abandoned and the dispatch runs: its
 /// Cancel must still reach the wire.
-pub fn volume(mut f: impl FnMut(Script)) {
-    for (n, q) in [(1100usize, 1usize), (1030, 2)] {
+pub fn volume(f: impl FnMut(Script)) {
+    volume_of(&[(1100usize, 1usize), (1030, 2)], f)
+}
+
+/// The same shape with tens instead of a thousand stale cancellations ahead of the genuine one (cheap enough
+/// for the corpus that runs first on every run): a per-poll bound on the cancellations drained shows here.
+pub fn midvolume(f: impl FnMut(Script)) {
+    volume_of(&[(17usize, 1usize), (40, 2), (24, 64), (65, 64)], f)
+}
+
+fn volume_of(sizes: &[(usize, usize)], mut f: impl FnMut(Script)) {
+    for &(n, q) in sizes {
         let mut ops = vec![Op::Call { h: 0, d: 100_000, tid: 11, sampled: false, body: 7 }, Op::PollCall(0), Op::PollD];
         for i in 1..=n {
             ops.push(Op::Call { h: 0, d: 100_000, tid: 22, sampled: false, body: (i % 90 + 1) as u64 });
